@@ -90,6 +90,8 @@ class Scenario:
         c = self.case
         hops = c["hops"]
         w = World(loop, hops + 3)
+        if c.get("no6"):
+            loop.ipv6_available = False         # hosts without IPv6: the second outside socket of an exit cannot be opened
         try:
             st = w.nodes[0].overlay.settings
             D = deadline(st)
@@ -286,9 +288,9 @@ class Scenario:
             self.info["cls"] = "%dhop/%s/%s/%dfaults%s%s" % (hops, c["phase"], td, len(c["faults"]),
                                                             "/demand" if c.get("demand") else "",
                                                             "/race" if race is not None else "/chatter" if c.get("chatter")
-                                                            else "/early" if c.get("early") else "")
+                                                            else "/early" if c.get("early") else "") + ("/no6" if c.get("no6") else "")
             self.info["desc"] = (hops, c["phase"], td, tuple(map(tuple, c["faults"])), bool(c.get("demand")),
-                                 tuple(race) if race is not None else None, bool(c.get("chatter")), bool(c.get("early")))
+                                 tuple(race) if race is not None else None, bool(c.get("chatter")), bool(c.get("early")), bool(c.get("no6")))
         finally:
             w.net.on_send = None
             await w.close()
@@ -519,6 +521,9 @@ def _enum_shard(ctx: Ctx, shard: int, nshards: int, which: int, pairs: bool) -> 
         if s["hops"] >= 2 and s["phase"] in ("ready", "transfer"):
             jobs.append({**s, "seed": 5, "faults": [], "early": 1})
         if s["phase"] == "transfer":
+            jobs.append({**s, "seed": 5, "faults": [], "no6": 1})
+            for n in range(0, 24, 6):
+                jobs.append({**s, "seed": 5, "faults": [[n, "drop"]], "no6": 1})
             jobs.append({**s, "seed": 5, "faults": [], "chatter": 1})
             for n in range(0, 24, 4):
                 jobs.append({**s, "seed": 5, "faults": [[n, "drop"]], "chatter": 1})
@@ -558,7 +563,7 @@ def _strategy():
     race = st.none() | st.tuples(st.integers(0, 8), st.integers(0, 8), st.integers(0, 12)).map(list)
     scen = st.tuples(sc, st.integers(0, 1000), faults, st.booleans(), race).map(
         lambda t: {**t[0], "seed": t[1], "faults": t[2], "demand": t[3], **({"race": t[4]} if t[4] is not None else {}),
-                   **({"chatter": 1} if t[1] % 3 == 0 else {}), **({"early": 1} if t[1] % 4 == 1 else {})})
+                   **({"chatter": 1} if t[1] % 3 == 0 else {}), **({"early": 1} if t[1] % 4 == 1 else {}), **({"no6": 1} if t[1] % 5 == 2 else {})})
     join = st.fixed_dictionaries({"sub": st.just("join_limit"), "limit": st.integers(1, 4), "seed": st.integers(0, 99)})
     early = st.fixed_dictionaries({"sub": st.just("relay_early"), "limit": st.integers(0, 8), "burst": st.integers(1, 20),
                                    "seed": st.integers(0, 99)})
